@@ -925,14 +925,17 @@ PROFILES.update(gen_tokio.PROFILES)
 def runs_for(rng, kinds=("random", "pct", "rr", "dfs"), dfs_iters=None):
     k = rng.choice(list(kinds))
     if k == "random":
-        return f"random:{rng.below(2**32)}:{2 + rng.below(3)}"
+        # (mostly a few iterations; one run in four explores a program with many schedules)
+        return f"random:{rng.below(2**32)}:{2 + rng.below(3) if not rng.chance(1, 4) else 12 + rng.below(20)}"
     if k == "pct":
-        return f"pct:{rng.below(2**32)}:{1 + rng.below(4)}:{3 + rng.below(3)}"
+        return f"pct:{rng.below(2**32)}:{1 + rng.below(4)}:{3 + rng.below(3) if not rng.chance(1, 4) else 10 + rng.below(10)}"
     if k == "rr":
         return "rr:1" if rng.chance(1, 2) else f"rr:{2 + rng.below(2)}"      # same schedule again, fresh data seed
     if k == "urw":
         return f"urw:{rng.below(2**32)}:{2 + rng.below(3)}"
-    return f"dfs:{5 + rng.below(20)}" if not dfs_iters else f"dfs:{dfs_iters}"
+    if dfs_iters:
+        return f"dfs:{dfs_iters}"
+    return f"dfs:{5 + rng.below(20)}" if not rng.chance(1, 3) else f"dfs:{150 + rng.below(250)}"
 
 
 def batch(seed, profile, count, prefix, kinds=("random", "pct", "rr", "dfs")):
